@@ -376,12 +376,12 @@ void RangeToken::addRange(const XMLInt32 start, const XMLInt32 end) {
             {
                 // check if this range is already part of this one
                 if (fRanges[i] <= val1 && fRanges[i+1] >= val2)
-                    break;
+                    return;
                 // or if the new one extends the old one
                 else if(fRanges[i]==val1 && fRanges[i+1] < val2)
                 {
                     fRanges[i+1]=val2;
-                    break;
+                    return;
                 }
                 else if (fRanges[i] > val1 ||
                           (fRanges[i]==val1 && fRanges[i+1] > val2))
@@ -391,9 +391,14 @@ void RangeToken::addRange(const XMLInt32 start, const XMLInt32 end) {
                     fRanges[i]   = val1;
                     fRanges[i+1] = val2;
                     fElemCount  += 2;
-                    break;
+                    return;
                 }
             }
+            // Not handled above: the new range starts inside the last range
+            // but ends beyond it (every existing range starts before it), so
+            // it goes at the end; compactRanges() merges the overlap.
+            fRanges[fElemCount++] = val1;
+            fRanges[fElemCount++] = val2;
         }
         else
         {
